@@ -134,7 +134,7 @@ package interp
 //@   opt loops = havoc
 //@   opt opaque-calls = *
 //@   opt opaque-havoc = none
-//@   opt record-calls = index, assignment
+//@   opt record-calls = index, assignment, genAST, genRun
 //@   opt return-after = index, assignment
 //@   opt ignore-contracts = index, assignment
 //@   requires [assume] n != nil && len(n.child) >= 2 && n.child[0] != nil && n.child[1] != nil && n.child[0].typ != nil && sc != nil
@@ -142,6 +142,7 @@ package interp
 //@   requires [assume] no-error-so-far: err == nil
 //@   ensures [local:t] an-index-rule-is-consulted: t.cat != funcT && t.cat != genericT && t.cat != structT ==> err != nil || called(index) || called(assignment)
 //@   ensures [local:t] indexing-a-function-needs-a-type-argument: t.cat == funcT && !old(n.child[1]).isType(sc) ==> err != nil
+//@   ensures instantiation-errors-are-reported: (called(genAST) && lastRes(genAST, 2) != nil ==> err != nil) && (called(genRun) && lastRes(genRun, 0) != nil ==> err != nil)
 //@   ensures index-checked-on-the-index-operand: called(index) ==> lastArg(index, 0) == n.child[1] && err == lastRes(index, 0)
 //@   ensures [local:typ] array-index-checked-against-the-length: called(index) && typ.Kind() == reflect.Array ==> lastArg(index, 1) == typ.Len()
 //@   ensures [local:typ] index-rule-only-for-indexable-operands: called(index) ==> typ.Kind() == reflect.Array || typ.Kind() == reflect.Slice || typ.Kind() == reflect.String || (typ.Kind() == reflect.Ptr && typ.Elem().Kind() == reflect.Array)
@@ -157,11 +158,11 @@ package interp
 //@   pure
 //@ lit Interpreter.cfg case:callExpr#1 () ()
 //@   props C12
-//@   opt safety = off
+//@   opt safety = index:n.child[1]
 //@   opt loops = havoc
 //@   opt opaque-calls = *
 //@   opt opaque-havoc = none
-//@   opt record-calls = builtin, conversion, arguments
+//@   opt record-calls = builtin, conversion, arguments, genAST, genRun
 //@   opt return-after = builtin, conversion, arguments
 //@   opt ignore-contracts = builtin, conversion, arguments, nodeType
 //@   requires [assume] n != nil && n.anc != nil && len(n.child) >= 1 && forall(k, 0, len(n.child), n.child[k] != nil) && sc != nil
@@ -175,5 +176,6 @@ package interp
 //@   ensures conversion-checked: old(conv) && len(n.child) == 2 ==> err != nil || called(conversion) && lastArg(conversion, 0) == n.child[1] && lastArg(conversion, 1) == n.child[0].typ
 //@   ensures host-function-call-checked: old(!generic && !bltn && !conv && isBinCall(n, sc)) ==> err != nil || called(arguments) && lastArg(arguments, 0) == n && lastArg(arguments, 2) == n.child[0] && len(lastArg(arguments, 1)) == len(n.child) - 1 && forall(k, 1, len(n.child), lastArg(arguments, 1)[k-1] == n.child[k]) && lastArg(arguments, 3) == (n.action == aCallSlice)
 //@   ensures script-function-call-checked: old(!generic && !bltn && !conv && !isBinCall(n, sc)) ==> err != nil || (called(arguments) && lastArg(arguments, 0) == n && lastArg(arguments, 2) == n.child[0] && len(lastArg(arguments, 1)) == len(n.child) - 1 && forall(k, 1, len(n.child), lastArg(arguments, 1)[k-1] == n.child[k]) && lastArg(arguments, 3) == (n.action == aCallSlice))
+//@   ensures instantiation-errors-are-reported: old(generic) ==> (called(genAST) && lastRes(genAST, 2) != nil ==> err != nil) && (called(genRun) && lastRes(genRun, 0) != nil ==> err != nil)
 //@   ensures rule-error-is-the-node-error: (called(builtin) ==> err == lastRes(builtin, 0)) && (called(conversion) ==> err == lastRes(conversion, 0)) && (called(arguments) ==> err == lastRes(arguments, 0))
 //@   canary err != nil
